@@ -31,7 +31,13 @@ func (p *Program) newDataRoots(fb funcBody) *dataRoots {
 			}
 		}
 	}
-	if fd != nil {
+	// parameters of a helper that only package initialisation calls carry
+	// the package's own constants, not input data
+	initOnly := false
+	if sf := p.SSAFunc(fb.Decl); sf != nil {
+		initOnly = p.initOnlyFuncs()[sf] || isInitFunc(sf.Name())
+	}
+	if fd != nil && !initOnly {
 		addParams(fd.Recv)
 		addParams(fd.Type.Params)
 	}
